@@ -43,16 +43,52 @@ Print Assumptions tucan_layout.
 (* ======================================================================================== *)
 From Coq Require Import String.
 Require Import Molfile CanonView TotalProofs.
-Require V2000 V3000Render V2000Render NonIdentity Norm RefCanon EndToEnd.
+Require V2000 V3000 V3000Render V2000Render NonIdentity Norm RefCanon ReadersNoZero EndToEnd.
 
-(* 1. What holds for the graph of EVERY text the entry point reads (conformant or not): distinct node
-   names, every unordered pair bonded at most once, no explicit zero mass / radical, every atomic
-   number has an element symbol (it is the table entry of the symbol kept on the atom). *)
+(* 1. What holds for the graph of EVERY text the entry point reads (conformant or not): wfg (distinct
+   node names, no bond from an atom to itself, bond endpoints are nodes), every unordered pair bonded at
+   most once, no explicit zero mass / radical, stored masses / radicals >= 1, every atomic number has an
+   element symbol (it is the table entry of the symbol kept on the atom).  These are all hypotheses of
+   tucan_in_grammar / tucan_layout above. *)
 Theorem C05_read_graph_props : forall (s : text) (g : mol rpay Z),
   V2000.read_molfile s = ok g ->
-  NoDup (labels g) /\ simple g /\ (forall x, In x (atoms g) -> nozero x) /\ known_elements g.
+  wfg g /\ simple g /\ (forall x, In x (atoms g) -> nozero x) /\ pos_attrs g /\ known_elements g.
 Proof. exact EndToEnd.read_graph_props. Qed.
 Print Assumptions C05_read_graph_props.
+
+(* the two parts that rest on the readers rejecting such files (Proofs/ReadersNoZero.v, section 6) *)
+Theorem C05_read_no_self_bond : forall (s : text) (g : mol rpay Z),
+  V2000.read_molfile s = ok g -> forall b, In b (bonds g) -> fst (ends b) <> snd (ends b).
+Proof. exact ReadersNoZero.read_molfile_no_self_bond. Qed.
+Print Assumptions C05_read_no_self_bond.
+
+Theorem C05_read_nonneg : forall (s : text) (g : mol rpay Z),
+  V2000.read_molfile s = ok g ->
+  forall x, In x (atoms g) -> (forall v, mass x = Some v -> (0 <= v)%Z) /\ (forall v, rad x = Some v -> (0 <= v)%Z).
+Proof. exact ReadersNoZero.read_molfile_nonneg. Qed.
+Print Assumptions C05_read_nonneg.
+
+Theorem C05_read_v3000_no_self_bond : forall lines ats bds,
+  V3000.read_v3000 lines = ok (ats, bds) -> Forall (fun b : rbond => fst (fst b) <> snd (fst b)) bds.
+Proof. exact ReadersNoZero.read_v3000_no_self_bond. Qed.
+Print Assumptions C05_read_v3000_no_self_bond.
+
+Theorem C05_read_v2000_no_self_bond : forall lines ats bds,
+  V2000.read_v2000 lines = ok (ats, bds) -> Forall (fun b : rbond => fst (fst b) <> snd (fst b)) bds.
+Proof. exact ReadersNoZero.read_v2000_no_self_bond. Qed.
+Print Assumptions C05_read_v2000_no_self_bond.
+
+Theorem C05_read_v3000_nonneg : forall lines ats bds,
+  V3000.read_v3000 lines = ok (ats, bds) ->
+  Forall (fun a => (forall v, r_mass a = Some v -> (0 <= v)%Z) /\ (forall v, r_rad a = Some v -> (0 <= v)%Z)) ats.
+Proof. exact ReadersNoZero.read_v3000_nonneg. Qed.
+Print Assumptions C05_read_v3000_nonneg.
+
+Theorem C05_read_v2000_nonneg : forall lines ats bds,
+  V2000.read_v2000 lines = ok (ats, bds) ->
+  Forall (fun a => (forall v, r_mass a = Some v -> (0 <= v)%Z) /\ (forall v, r_rad a = Some v -> (0 <= v)%Z)) ats.
+Proof. exact ReadersNoZero.read_v2000_nonneg. Qed.
+Print Assumptions C05_read_v2000_nonneg.
 
 Theorem C05_read_molfile_symbols : forall (s : text) (g : mol rpay Z),
   V2000.read_molfile s = ok g ->
@@ -60,44 +96,32 @@ Theorem C05_read_molfile_symbols : forall (s : text) (g : mol rpay Z),
 Proof. exact EndToEnd.read_molfile_symbols. Qed.
 Print Assumptions C05_read_molfile_symbols.
 
-(* What does NOT hold for arbitrary text, with accepted texts as witnesses (EndToEnd.ex_selfbond_text:
-   bond line "M  V30 1 1 1 1"; EndToEnd.ex_negative_text: "MASS=-3", "RAD=-1"):
-   (a) a bond from an atom to itself is read and kept; the emitted string "CO/(1-1)(1-2)" is rejected
-       by the reference reader and no layout statement holds for it;
-   (b) a negative mass / radical is read and kept; the emitted string "CO/(1-2)/(1:mass=-3)(2:rad=-1)"
-       is not a sentence.
-   Hence the two hypotheses "no self-bond" and "positive values" of theorem 2. *)
-Theorem C05_selfbond_is_read :
-  EndToEnd.graph_view (V2000.read_molfile EndToEnd.ex_selfbond_text)
-  = Some ([(0, 6, None, None); (1, 8, None, None)]%N, [(0%N, 0%N, 1%Z); (0%N, 1%N, 1%Z)])
-  /\ EndToEnd.run_text EndToEnd.ex_selfbond_text = Some (t "CO/(1-1)(1-2)")
-  /\ ref_parse (t "CO/(1-1)(1-2)") = inl ESelfLoop
-  /\ forall ts (m2 : mol rpay Z) syms,
-       lex_text (t "CO/(1-1)(1-2)") = Some ts -> parse_tokens ts = Some (ast_of m2 syms) ->
-       ~ Layout.layout_ok m2 (ast_of m2 syms).
-Proof.
-  exact (conj EndToEnd.ex_selfbond_read (conj (proj1 EndToEnd.ex_selfbond_run)
-        (conj (proj2 (proj2 EndToEnd.ex_selfbond_run)) EndToEnd.ex_selfbond_no_layout))).
-Qed.
-Print Assumptions C05_selfbond_is_read.
+(* The two texts that used to be accepted and to break the property (EndToEnd.ex_selfbond_text: bond
+   line "M  V30 1 1 1 1"; EndToEnd.ex_negative_text: "MASS=-3", "RAD=-1") are rejected by the model reader:
+   (a) a bond from an atom to itself -- the string it would give, "CO/(1-1)(1-2)", is rejected by the
+       reference reader;
+   (b) a negative mass / radical -- the string it would give, "CO/(1-2)/(1:mass=-3)(2:rad=-1)", is not
+       a sentence. *)
+Theorem C05_selfbond_is_rejected :
+  V2000.read_molfile EndToEnd.ex_selfbond_text = inl EParser
+  /\ ref_parse (t "CO/(1-1)(1-2)") = inl ESelfLoop.
+Proof. exact (conj EndToEnd.ex_selfbond_rejected EndToEnd.ex_selfbond_string_rejected). Qed.
+Print Assumptions C05_selfbond_is_rejected.
 
-Theorem C05_negative_value_is_read :
-  EndToEnd.graph_view (V2000.read_molfile EndToEnd.ex_negative_text)
-  = Some ([(0%N, 6%N, Some (-3)%Z, None); (1%N, 8%N, None, Some (-1)%Z)], [(0%N, 1%N, 1%Z)])
-  /\ EndToEnd.run_text EndToEnd.ex_negative_text = Some (t "CO/(1-2)/(1:mass=-3)(2:rad=-1)")
+Theorem C05_negative_value_is_rejected :
+  V2000.read_molfile EndToEnd.ex_negative_text = inl EParser
   /\ forall ts a, lex_text (t "CO/(1-2)/(1:mass=-3)(2:rad=-1)") = Some ts -> ~ ParseProofs.Sentence ts a.
-Proof. exact (conj EndToEnd.ex_negative_read (conj EndToEnd.ex_negative_run EndToEnd.ex_negative_no_sentence)). Qed.
-Print Assumptions C05_negative_value_is_read.
+Proof. exact (conj EndToEnd.ex_negative_rejected EndToEnd.ex_negative_no_sentence). Qed.
+Print Assumptions C05_negative_value_is_rejected.
 
 (* 2. C05 for the readers.  For every oracle satisfying H1 and EVERY text s that is read into a graph
-   with at least one atom, no bond from an atom to itself and no non-positive stored mass / radical:
-   the pipeline returns a string, it is the spelling of a sentence of the grammar, and it obeys the
-   canonical layout. *)
+   with at least one atom (the only hypothesis: EndToEnd.ex_empty_read is a text that is read into the
+   empty graph, for which no string is returned): the pipeline returns a string, it is the spelling of a
+   sentence of the grammar, and it obeys the canonical layout. *)
 Theorem C05_molfile_text_in_grammar :
   forall canon, H1 canon ->
   forall (s : text) (g : mol rpay Z),
     V2000.read_molfile s = ok g -> atoms g <> nil ->
-    (forall b, In b (bonds g) -> fst (ends b) <> snd (ends b)) -> pos_attrs g ->
     exists c ts a, tucan canon g = Some c /\ lex_text c = Some ts /\ ParseProofs.Sentence ts a /\ print_tokens ts = c.
 Proof. exact EndToEnd.molfile_text_in_grammar. Qed.
 Print Assumptions C05_molfile_text_in_grammar.
@@ -106,28 +130,21 @@ Theorem C05_molfile_text_layout :
   forall canon, H1 canon ->
   forall (s : text) (g : mol rpay Z),
     V2000.read_molfile s = ok g -> atoms g <> nil ->
-    (forall b, In b (bonds g) -> fst (ends b) <> snd (ends b)) -> pos_attrs g ->
     exists c ts (m2 : mol rpay Z) syms h,
       tucan canon g = Some c /\ print_tokens ts = c /\ lex_text c = Some ts /\ parse_tokens ts = Some (ast_of m2 syms) /\
       SameMol h g m2 /\ ser_ready m2 /\ Layout.layout_ok m2 (ast_of m2 syms).
 Proof. exact EndToEnd.molfile_text_layout. Qed.
 Print Assumptions C05_molfile_text_layout.
 
-(* "positive" can be replaced by "not negative": the readers never store a zero *)
-Theorem C05_molfile_text_in_grammar_nonneg :
-  forall canon, H1 canon ->
-  forall (s : text) (g : mol rpay Z),
-    V2000.read_molfile s = ok g -> atoms g <> nil ->
-    (forall b, In b (bonds g) -> fst (ends b) <> snd (ends b)) ->
-    (forall x, In x (atoms g) -> (forall v, mass x = Some v -> (0 <= v)%Z) /\ (forall v, rad x = Some v -> (0 <= v)%Z)) ->
-    exists c ts a, tucan canon g = Some c /\ lex_text c = Some ts /\ ParseProofs.Sentence ts a /\ print_tokens ts = c.
-Proof. exact EndToEnd.molfile_text_in_grammar_nonneg. Qed.
-Print Assumptions C05_molfile_text_in_grammar_nonneg.
+Theorem C05_empty_file_no_string :
+  EndToEnd.graph_view (V2000.read_molfile EndToEnd.ex_empty_text) = Some (nil, nil) /\ EndToEnd.run_text EndToEnd.ex_empty_text = None.
+Proof. exact EndToEnd.ex_empty_read. Qed.
+Print Assumptions C05_empty_file_no_string.
 
-(* 3. The hypotheses discharged for spec-conformant files.
+(* 3. Spec-conformant files.
    V3000: M any well-formed abstract molecule (V3000Render.okM: known element symbols or D / T,
-   coordinate tokens, bond lines between atom entries, every ordered pair stated once) in which no bond
-   line joins an atom to itself, with at least one atom entry and no negative stated mass / radical;
+   coordinate tokens, no negative stated mass / radical, bond lines between atom entries, every ordered
+   pair stated once, no bond line joining an atom to itself) with at least one atom entry;
    ch any admissible rendering choices (okch, okch_text: header lines, index values, blank runs,
    continuation points, order and repetition of CHG= / RAD= / MASS=, explicit defaults, foreign
    keywords, trailing blocks); eol: CR LF or LF line by line.  The text is read, the string exists, it
@@ -136,9 +153,7 @@ Theorem C05_v3000_file_in_grammar :
   forall canon, H1 canon ->
   forall (M : V3000Render.molM) (ch : V3000Render.choices) (eol : nat -> bool),
     V3000Render.okM M ->
-    (forall u, ~ In (u, u) (flat_map V3000Render.bond_keys (V3000Render.m_bonds M))) ->
     (exists a, In (Some a) (V3000Render.m_entries M)) ->
-    (forall a, In (Some a) (V3000Render.m_entries M) -> (0 <= V3000Render.a_mass a)%Z /\ (0 <= V3000Render.a_rad a)%Z) ->
     V3000Render.okch M ch -> V3000Render.okch_text ch ->
     exists g c ts a,
       V2000.read_molfile (V3000Render.file_text eol 0 (V3000Render.render3000 M ch)) = ok g /\
@@ -150,9 +165,7 @@ Theorem C05_v3000_file_layout :
   forall canon, H1 canon ->
   forall (M : V3000Render.molM) (ch : V3000Render.choices) (eol : nat -> bool),
     V3000Render.okM M ->
-    (forall u, ~ In (u, u) (flat_map V3000Render.bond_keys (V3000Render.m_bonds M))) ->
     (exists a, In (Some a) (V3000Render.m_entries M)) ->
-    (forall a, In (Some a) (V3000Render.m_entries M) -> (0 <= V3000Render.a_mass a)%Z /\ (0 <= V3000Render.a_rad a)%Z) ->
     V3000Render.okch M ch -> V3000Render.okch_text ch ->
     exists g c ts (m2 : mol rpay Z) syms h,
       V2000.read_molfile (V3000Render.file_text eol 0 (V3000Render.render3000 M ch)) = ok g /\
@@ -162,15 +175,14 @@ Proof. exact EndToEnd.v3000_file_layout. Qed.
 Print Assumptions C05_v3000_file_layout.
 
 (* V2000: M any well-formed abstract molecule and ch any admissible rendering (NonIdentity.okfile2000:
-   okM2000, okch2000, a counts line ending in " V2000", no line break inside a line), no bond line
-   joining an atom to itself, at least one atom, no negative stated mass / radical. *)
+   okM2000 -- the two atom numbers of a bond line differ --, okch2000 -- no negative value on an
+   M  RAD / M  ISO line --, a counts line ending in " V2000", no line break inside a line), at least
+   one atom. *)
 Theorem C05_v2000_file_in_grammar :
   forall canon, H1 canon ->
   forall (M : V2000Render.mol2) (ch : V2000Render.choices) (eol : nat -> bool),
     NonIdentity.okfile2000 M ch ->
-    (forall u, ~ In (u, u) (map fst (V2000Render.m_bonds M))) ->
     V2000Render.m_atoms M <> nil ->
-    (forall a, In a (V2000Render.m_atoms M) -> (0 <= V2000Render.a_mass a)%Z /\ (0 <= V2000Render.a_rad a)%Z) ->
     exists g c ts a,
       V2000.read_molfile (V3000Render.file_text eol 0 (V2000Render.render2000 M ch)) = ok g /\
       tucan canon g = Some c /\ lex_text c = Some ts /\ ParseProofs.Sentence ts a /\ print_tokens ts = c.
@@ -181,9 +193,7 @@ Theorem C05_v2000_file_layout :
   forall canon, H1 canon ->
   forall (M : V2000Render.mol2) (ch : V2000Render.choices) (eol : nat -> bool),
     NonIdentity.okfile2000 M ch ->
-    (forall u, ~ In (u, u) (map fst (V2000Render.m_bonds M))) ->
     V2000Render.m_atoms M <> nil ->
-    (forall a, In a (V2000Render.m_atoms M) -> (0 <= V2000Render.a_mass a)%Z /\ (0 <= V2000Render.a_rad a)%Z) ->
     exists g c ts (m2 : mol rpay Z) syms h,
       V2000.read_molfile (V3000Render.file_text eol 0 (V2000Render.render2000 M ch)) = ok g /\
       tucan canon g = Some c /\ print_tokens ts = c /\ lex_text c = Some ts /\ parse_tokens ts = Some (ast_of m2 syms) /\
